@@ -121,6 +121,9 @@ def handleC15 : Sexp → Option Sexp
     let url ← strOf? url
     let pc ← Gen.puzzleCodecs.find? (·.name == name)
     some (outcomeS (fun r => [pyValS r]) (deProblemAsUrl pc.comb url pc.allowed pc.allowFailure pc.returnSize))
+  | .list [.atom "ctor", c] => do
+    let c ← comb? c
+    some (.list [.atom "ok", .ofBool (ctorOk c)])
   | .list [.atom "scope", c] => do
     let c ← comb? c
     some (.list [.atom "ok", .ofBool (wf c), .ofBool (single c), .ofBool (terminating c)])
